@@ -222,7 +222,30 @@ def t3ify(d):
     """the same definition with the harness's types (Ctx / Pay / D) and with hook names made unique per
     signature class, so that a definition drawn for the token-level tie can be compiled and driven"""
     names = {}
+    # a hook name used with one signature only is kept (its spelling may matter); others are renamed
+    sig_of = {}
+    for n, (kind, payload) in []:
+        pass
+    for it in d:
+        if it[0] != 'events':
+            continue
+        for (en, items) in it[1]:
+            payload = any(e[0] == 'payload' for e in items)
+            def note(kind, ns):
+                sig = {'guards': 'c', 'unless': 'c', 'before': 'm', 'after': 'm', 'around': 'w'}[kind] + ('p' if payload and kind != 'around' else '')
+                for n in ns:
+                    sig_of.setdefault(n, set()).add(sig)
+            for e in items:
+                if e[0] in D.HOOKS:
+                    note(e[0], e[1])
+                elif e[0] == 'transition':
+                    for t in e[1]:
+                        if t[0] in D.HOOKS:
+                            note(t[0], t[1])
+    reserved = {'slots_text', 'apply_write', 'opt_get', 'opt_set', 'ctx_id', 'new', 'ctx', 'into_dynamic'} | set(D.KEYWORDS)
     def hn(kind, payload, n):
+        if len(sig_of.get(n, ())) == 1 and n not in reserved and not n.endswith('_data') and not n.endswith('_data_mut'):
+            return n
         pre = {'guards': 'g', 'unless': 'g', 'before': 'b', 'after': 'a', 'around': 'w'}[kind]
         if kind != 'around' and payload:
             pre += 'p'
